@@ -163,19 +163,34 @@ def gen_pair(rng: random.Random):
     if rng.random() < 0.5:
         lines.append("# comment line\n")
         feats.add("comment")
+    body = []  # (line text, (res, atom, charge text, radius text, group)) in file order
     for r in resn:
         for a in rng.sample(atomn, rng.randint(1, 6)):
             q = rng.choice([f"{rng.uniform(-1, 1):.4f}", f"{rng.uniform(-1, 1):.3f}", "0", "-0.5", "+0.25", "1e-1", ".5", "5."])
             rad = rng.choice([f"{rng.uniform(0, 2.5):.4f}", "1.5", "0.0000", "2"])
             sep = rng.choice([" ", "\t", "   "])
-            row = sep.join([r, a, q, rad] + ([rng.choice(["N3", "CT", "HO"])] if rng.random() < 0.5 else []))
-            lines.append(rng.choice(["", " "]) + row + rng.choice(["\n", " \n", "\r\n"]))
+            grp = [rng.choice(["N3", "CT", "HO"])] if rng.random() < 0.5 else []
+            row = sep.join([r, a, q, rad] + grp)
+            body.append((rng.choice(["", " "]) + row + rng.choice(["\n", " \n", "\r\n"]), (r, a, q, rad, grp[0] if grp else "")))
             if rng.random() < 0.05:
-                lines.append("\n")
+                body.append(("\n", None))
                 feats.add("blank")
             if rng.random() < 0.05:
-                lines.append(sep.join([r, a, f"{rng.uniform(-1, 1):.4f}", "1.0000"]) + "\n")  # duplicate: last wins
+                q2 = f"{rng.uniform(-1, 1):.4f}"
+                body.append((sep.join([r, a, q2, "1.0000"]) + "\n", (r, a, q2, "1.0000", "")))  # duplicate: last wins
                 feats.add("duplicate-row")
+    if rng.random() < 0.3:
+        # the format is line based: the rows of one residue need not be contiguous
+        how = rng.choice(["shuffle", "move-one", "interleave"])
+        if how == "shuffle":
+            rng.shuffle(body)
+        elif how == "move-one" and len(body) > 2:
+            body.insert(rng.randrange(len(body)), body.pop(rng.randrange(len(body))))
+        else:
+            body = body[::2] + body[1::2]
+        feats.add("rows-not-grouped-by-residue")
+    lines += [t for t, _ in body]
+    gen_pair.last_rows = [r for _, r in body if r is not None]
     r = rng.random()
     if r < 0.03:
         lines.insert(rng.randrange(len(lines) + 1), "ALA N x 1.0\n")
@@ -188,7 +203,7 @@ def gen_pair(rng: random.Random):
         feats.add("one-field")
     # sections
     sections = []
-    for _ in range(rng.randint(0, 6)):
+    for _ in range(rng.choice([0, 0, 0, 1, 2, 3, 4, 6])):
         A, B = rng.sample(["ALA", "GLY", "HIS", "PRO", "ASP", "CYS", "WAT", "ILE"], 2)
         pat = rng.choice(PAT_TEMPLATES).format(A=A, B=B)
         use = None
@@ -237,6 +252,16 @@ def tie_pairs(ctx: Ctx, n: int):
             except (ValueError, IndexError, KeyError) as e:
                 res = type(e).__name__
             impl.append((dat, names, res, feats))
+            # independent oracle when there is no names section: the map is exactly "last row per (residue, atom)"
+            if not sections and isinstance(res, dict) and not ({"bad-number", "short-row", "one-field"} & feats):
+                want = {}
+                for r_, a_, q_, rad_, g_ in gen_pair.last_rows:
+                    want[(r_, a_)] = (float(q_), float(rad_), r_, a_)
+                got = {k: (v[0], v[1], v[2], v[3]) for k, v in res.items()}
+                if got != want:
+                    bad = next((k for k in want if got.get(k) != want[k]), None) or next(k for k in got if k not in want)
+                    ctx.violate({"kind": "user-parameter-file", "what": "entry-lost" if bad not in got else "wrong-value" if bad in want else "entry-invented", "grouped": "rows-not-grouped-by-residue" not in feats},
+                                f"parameter file row {bad}: the file gives {want.get(bad)}, the loaded force field answers {got.get(bad)}", {"dat": dat, "names": names, "key": list(bad)})
             try:
                 enc = ";".join(" ".join(genff.re_tokens(genff.re_ast(p + "$"))) + "|" + ("~" if u is None else hexs(u)) + "|" + ",".join(f"{hexs(a)}={hexs(b)}" for a, b in at) for p, u, at in sections)
             except genff.Unsupported:
